@@ -219,7 +219,7 @@ def run(chk, cfg, patterns, n_sim, keep, depth, locs=("P", "Q"), versions=(0, 1)
         ndrift += len(res["drift"])
         for cat, k, msg, hist in res["findings"]:
             if cat in own:
-                short = [{kk: vv for kk, vv in h.items() if kk in ("op", "loc", "uc", "cc", "rpc", "slot", "img", "sel", "file", "how", "cell", "ver", "outcome", "target", "usable", "into")} for h in hist]
+                short = [{kk: vv for kk, vv in h.items() if kk in ("op", "loc", "uc", "cc", "rpc", "slot", "img", "sel", "file", "how", "cell", "ver", "outcome", "target", "usable", "into", "dst", "scope")} for h in hist]
                 chk.violation(f"session:{cat}", f"[history of {len(hist)} steps, {t['level']} on {t['fs']}, step {k + 1}] {msg}",
                               {"task": t, "history": short, "category": cat})
             else:
@@ -261,7 +261,7 @@ STANDARD = {
 
 
 # recorded sessions (code -> spec, harness/sessiontrace.py): operation weights per property, (traces, steps) quick / thorough
-QUIET = dict(cli=0, redeliver=0, damage=0, restore=0, delete=0, tear=0, cachedir=0, purge=0, block=0)
+QUIET = dict(cli=0, redeliver=0, damage=0, restore=0, delete=0, tear=0, cachedir=0, purge=0, block=0, copyto=0)
 PROFILES = {
     "C01": (dict(QUIET, open=25, load=40, mutate=6, copy=8, drop=3, redeliver=7), (0, 1)),
     "C02": (dict(QUIET, open=18, load=45, mutate=16, copy=3, drop=2, redeliver=5), (0, 1)),
